@@ -93,6 +93,8 @@ Step(cur, seg) ==
     THEN IF seg.argok /\ \E j \in DOMAIN c.es : c.es[j] = seg.arg THEN Pos(TRUE, seg.arg, FALSE, FALSE)
          ELSE IF \E j \in DOMAIN c.es : ~JsonAtomKey(c.es[j]) THEN Pos(TRUE, VUndef, FALSE, TRUE)
          ELSE Pos(FALSE, VUndef, FALSE, FALSE)
+    \* an object whose properties are inherited (class "inh"): own-property and structural reading differ, position unknown
+    ELSE IF c.k = "obj" /\ c.c = "inh" THEN Pos(TRUE, VUndef, FALSE, TRUE)
     ELSE IF IsObjLike(c) \/ c.k = "arr"
     THEN IF HasKey(c, seg.raw) THEN Pos(TRUE, Get(c, seg.raw), FALSE, FALSE) ELSE Pos(TRUE, VUndef, TRUE, FALSE)
     ELSE Pos(FALSE, VUndef, FALSE, FALSE)
